@@ -35,6 +35,10 @@ type logT struct {
 	// Stale: logged through the *slog.Logger obtained with Logger() right after construction, i.e.
 	// before any StartBuffering (finding K20f)
 	Stale bool `json:",omitempty"`
+	// OldTime (with Derived): the record is handed to the With logger's handler the way a log bridge does it — built by
+	// the caller, with a timestamp of its own that goes BACKWARDS from record to record (forwarded lines of another
+	// process, whole-second timestamps). Same path as a derived call otherwise (Enabled, then Handle).
+	OldTime bool `json:",omitempty"`
 }
 
 type bopT struct {
@@ -58,8 +62,10 @@ type bcaseT struct {
 	Custom    bool `json:",omitempty"`
 	// Source: the logger is built with logging.WithSource(true) (ungated mode)
 	Source bool `json:",omitempty"`
-	Progs  [][]bopT
-	Sched  []stepT
+	// Overlap: the fixed history of overlap.go (two overlapping FlushBuffer calls), run without the conductor
+	Overlap bool `json:",omitempty"`
+	Progs   [][]bopT
+	Sched   []stepT
 }
 
 type evT struct {
@@ -196,6 +202,12 @@ func (c *conductor) worker(w int) {
 				msg := msgOf(w, op.L)
 				if op.L.Stale {
 					c.stale.Log(context.Background(), slogLevels[op.L.Lvl], msg)
+				} else if op.L.Derived && op.L.OldTime {
+					h := c.l.With("w", w).Handler()
+					if h.Enabled(context.Background(), slogLevels[op.L.Lvl]) {
+						t := time.Unix(1700000000-int64(3600*op.L.Seq), 0)
+						_ = h.Handle(context.Background(), slog.NewRecord(t, slogLevels[op.L.Lvl], msg, 0))
+					}
 				} else if op.L.Derived {
 					c.l.With("w", w).Log(context.Background(), slogLevels[op.L.Lvl], msg)
 				} else {
@@ -248,6 +260,9 @@ const (
 func runB(k bcaseT, r *hx.Rand) (bcaseT, []evT, bool, map[string]int) {
 	if k.App {
 		return runApp(k)
+	}
+	if k.Overlap {
+		return runOverlap(k)
 	}
 	n := len(k.Progs)
 	c := &conductor{c: k, resp: make(chan workerMsg), fail: map[[2]int]bool{}}
@@ -627,6 +642,7 @@ func genBuffer(r *hx.Rand) bcaseT {
 				if staleCase && r.Chance(1, 3) {
 					lc.Stale, lc.Derived = true, false
 				}
+				lc.OldTime = lc.Derived && r.Chance(1, 3)
 				p = append(p, bopT{K: "L", L: lc})
 				seq++
 			case x < 14:
@@ -716,6 +732,8 @@ func fixedBuffer() []bcaseT {
 		{Custom: true, Progs: [][]bopT{{S, lg(0, 3, false), {K: "H"}, F}}, Sched: []stepT{{G: 0}, {G: 0}, {G: 0}, {G: 0}, {G: 0}}},
 		// K20f: a slog.Logger obtained before StartBuffering bypasses the buffer
 		{Progs: [][]bopT{{S, lg(0, 3, false), {K: "L", L: &logT{Seq: 1, Lvl: 3, Stale: true}}, F}}, Sched: r0(4)},
+		// records forwarded with their own, decreasing timestamps while buffering: replayed in the order they were logged
+		{Progs: [][]bopT{{S, {K: "L", L: &logT{Seq: 0, Lvl: 3, Derived: true, OldTime: true}}, {K: "L", L: &logT{Seq: 1, Lvl: 3, Derived: true, OldTime: true}}, lg(2, 3, false), {K: "L", L: &logT{Seq: 3, Lvl: 3, Derived: true, OldTime: true}}, F}}, Sched: r0(6)},
 		// the output is down for six writes and comes back: the records after the burst must still come out
 		{Progs: [][]bopT{{S, fl(0), fl(1), fl(2), fl(3), fl(4), fl(5), lg(6, 3, false), lg(7, 3, true), F, lg(8, 3, false)}}, Sched: r0(11)},
 		{Progs: [][]bopT{{fl(0), fl(1), fl(2), fl(3), fl(4), fl(5), lg(6, 3, false)}}, Sched: r0(7)},
